@@ -638,3 +638,21 @@ E('C03', 'quadtree magnitudes default in the class body', (REG, "        # magni
   (REG, "    def __init__(self, polygons, quadkeys, bounds, name='QuadtreeGrid2d', mask=None):", "    magnitudes = None\n\n    def __init__(self, polygons, quadkeys, bounds, name='QuadtreeGrid2d', mask=None):"))
 M('C19', 'HORUS magnitudes read in single precision', 'C19-D3.width', (RDR, "           'Mw': (9, \"<f8\")}", "           'Mw': (9, \"<f4\")}"))
 E('C19', 'HORUS value columns typed float64 by name', (RDR, "           'Mw': (9, \"<f8\")}", "           'Mw': (9, \"float64\")}"))
+
+# ------------------------------------------------------------------------------------------------ round 7 rules
+for _p in ('C01', 'C04'):
+    M(_p, 'masking through numpy.digitize on the lower edges', 'C01-D1.kernel',
+      (REG, '        idx = _bin_coordinates(lons, self.xs, self.dh)\n        idy = _bin_coordinates(lats, self.ys, self.dh)\n        # handles the case where values are outside of the region',
+       '        idx = numpy.digitize(lons, self.xs) - 1\n        idy = numpy.digitize(lats, self.ys) - 1\n        # handles the case where values are outside of the region'))
+M('C06', 'range check of the random numbers on a possibly empty array', 'C06-D7.empty',
+  (POI, '    else:\n        # TODO: ensure that random numbers are all between 0 and 1.\n        pass\n', '    if numpy.max(random_numbers) >= 1:\n        raise ValueError("random numbers must be below 1")\n'))
+E('C06', 'range check of the random numbers with an initial value',
+  (POI, '    else:\n        # TODO: ensure that random numbers are all between 0 and 1.\n        pass\n', '    if numpy.max(random_numbers, initial=0.0) >= 1:\n        raise ValueError("random numbers must be below 1")\n'))
+M('C17', 'zero-area shortcut on closeness', 'C17-D4.areazero', (REG, '    if lon1 == lon2 or lat1 == lat2:\n        return 0', '    if numpy.isclose(lon1, lon2) or numpy.isclose(lat1, lat2):\n        return 0'))
+M('C17', 'bounds computed from the sorted keys', 'C20-D3.keeporder', (REG, '        bounds = quadtree_grid_bounds(numpy.array(quadk))', '        bounds = quadtree_grid_bounds(numpy.unique(quadk))'))
+M('C02', 'histogram written through the unique indices', 'C03-D', (CAT, '        numpy.add.at(out, idx[idx != -1], 1)\n', '        occupied, counts = numpy.unique(idx, return_counts=True)\n        out[occupied] = counts\n'))
+M('C03', 'filter threshold as a numpy double', 'C04-D1', (CAT, "                filtered = self.catalog[operators[oper](self.catalog[name], float(value))]\n            else:\n                name, oper, value = statements.split(' ')\n                filtered = self.catalog[operators[oper](self.catalog[name], float(value))]",
+                                                     "                filtered = self.catalog[operators[oper](self.catalog[name], numpy.float64(value))]\n            else:\n                name, oper, value = statements.split(' ')\n                filtered = self.catalog[operators[oper](self.catalog[name], numpy.float64(value))]"))
+for _p in ('C10', 'C13'):
+    M(_p, 'spatial counts through a buffered increment', 'C03-D2', (CAT, '        numpy.add.at(event_counts, idx, 1)\n        return event_counts', '        event_counts[idx] += 1\n        return event_counts'))
+M('C13', 'inclusive filter operators with a tolerance', 'C04-D1', (CAT, "                     '>=': operator.ge,", "                     '>=': lambda x, b: (x > b) | numpy.isclose(x, b),"))
